@@ -206,6 +206,20 @@ pub fn run(tape: &[u8], cx: &Cx) -> Outcome {
         }
     }
     usable(&p, "parse_smt_literal", &mut o);
+    // braced escapes spelled from the generated integer (no further tape bytes): 1-5 hex digits in either
+    // case, every leading digit — values above 0x2FFFF must be copied as text, never decoded
+    for v in [x & 0xFFFFF, (x >> 12) & 0xFFFFF, (x >> 7) & 0xFFFFF] {
+        for l2 in [format!("\\u{{{:X}}}", v), format!("a\\u{{{:x}}}b", v)] {
+            o.evals += 1;
+            let p2 = parse_smt_literal(&l2);
+            expect_good(&p2, cls, format!("parse_smt_literal({:?})", l2), &mut o);
+            let cps: Vec<u32> = l2.chars().map(|c| c as u32).collect();
+            let e = r8::parse_literal(&cps);
+            if p2.as_ref() != &e[..] {
+                o.fail("C17/parse-differs", format!("parse_smt_literal({:?}) = {}, expected {}", l2, show_str(p2.as_ref()), show_str(&e)));
+            }
+        }
+    }
 
     // --- operation results on well-formed strings
     let wf: Vec<SmtString> = vec![a1.clone(), a3.clone(), SmtString::from(&exp4[..])];
